@@ -24,9 +24,9 @@ CLAIMED = {
             "Exploration: on every explored (module, specification) a probe was treated as source/sink exactly when one of its possible callees matches the specification's package/method/context patterns.",
             "The model takes the possible callees from the probe's construction (generator knowledge), not from the tool; specifications that match the probes' own helper functions are redrawn.",
             "DESIGN.md §3 C04"),
-    "C08": ("invariant check against an independently computed relation: SSA def-use chains of value-computing instructions vs paths in the function's summary graph, over generated programs and repository testdata",
-            "Exploration: every def-use chain from a parameter/free variable/call result to a return, call argument, captured variable or branch condition had a path in the summary graph of every explored function.",
-            "Only the first half of the property (chains are covered) is decided; persistence of origins along the CFG is exercised indirectly. Memory operations are outside the demanded relation.",
+    "C08": ("invariant check against an independently computed relation: SSA def-use chains of value-computing instructions vs paths in the function's summary graph; plus closure of the final abstract state (post-block callback) along every CFG edge; rapid-generated programs and repository testdata",
+            "Exploration: every def-use chain from a parameter/free variable/call result to a return, call argument, captured variable or branch condition had a path in the summary graph of every explored function, and every (value, access path, origin) attached at an instruction was attached at each control-flow successor in the final state of every explored function.",
+            "Memory operations are outside the demanded relation. The slot of a Defer instruction (where the RunDefers simulation stores the marks of the deferred call) is not judged as a program point (DESIGN.md section 6); field-sensitive closure on a quarter of the generated programs only.",
             "DESIGN.md §3 C08"),
     "C09": ("differential test: each standard-library summary template is executed natively (marker found in the result = real flow) and analysed with the predefined-summary table in force; conformance audit of table entries",
             "Exploration: every flow argument->result / argument->receiver that a native execution of a template exhibited was reported by the taint analysis using the built-in summary.",
@@ -46,7 +46,7 @@ CLAIMED = {
             "DESIGN.md §3 C14"),
     "C15": ("algebraic-law property test over escape graphs taken from real analyses (verif-tagged accessors) and rapid-weakened variants: semilattice laws, monotone transfer functions, order independence",
             "Exploration: idempotence, commutativity, associativity, upper bound, a<=b => join=b, status closure, monotonicity of every instruction's transfer function and equal summaries across re-runs held on all explored graphs.",
-            "Worklist orders are sampled through map iteration order across repeated analyses, not permuted explicitly; weakened graphs on which a transfer function panics are discarded.",
+            "Worklist orders are sampled through map iteration order across repeated analyses, not permuted explicitly; weakened graphs on which a transfer function panics are discarded. Monotonicity is judged on two kinds of ordered pairs: (fixpoint graph at block start, weakened variant) for every instruction and (function's initial graph, fixpoint graph at block start) for non-call instructions and builtins; weakening adds no synthetic edges, so an effect that depends on an edge no arising graph lacks is out of reach (seeded change C15b, DESIGN.md 7.6).",
             "DESIGN.md §3 C15"),
     "C05": ("metamorphic property test: same program under drawn option vectors vs default options (set equality / max-alarms law), generated programs and repository testdata",
             "Exploration: reported pair sets were invariant under every explored option vector; the max-alarms subset/size/non-emptiness law held.",
@@ -70,9 +70,9 @@ CLAIMED = {
             "Exploration: every executed function was in ReachableFunctions() and every dynamic caller->callee transfer had a call-graph edge and was resolved, on the explored dispatch programs.",
             "Deferred calls are matched against the defers of the functions spanning the line; goroutines are not part of this profile.",
             "DESIGN.md §3 C12"),
-    "C16": ("reference-model comparison: explicit-state enumeration of (block, defer stack) on the SSA CFG vs defers.AnalyzeFunction; rapid sampling + exhaustive small bodies",
+    "C16": ("reference-model comparison: explicit-state enumeration of (block, defer stack) on the SSA CFG vs defers.AnalyzeFunction; rapid sampling + exhaustive small bodies; native execution of the sampled bodies as ground truth",
             "Exploration (exhaustive for bodies of <= 3/4 statement nodes of the grammar): boundedness and exact stack sets agreed with the model on every body.",
-            "The model works on the same SSA CFG the tool sees (x/tools SSA builder trusted).",
+            "The model works on the same SSA CFG the tool sees (x/tools SSA builder trusted); the execution half (bodies built and run natively, executed defer order vs the reported set of that exit, repeated push obliges 'unbounded') is independent of the model but one-directional.",
             "DESIGN.md §3 C16"),
     "C17": ("invariant checking (I1-I4) over every inter-procedural graph built for generated and testdata programs, eager and on-demand",
             "Exploration: in/out mirror, call-site, closure and global-location invariants held on every graph inspected.",
